@@ -276,4 +276,35 @@ def Mentions (L : Layout) (prog : Tid → List Sec) (t : Tid) (f : Loc) : Prop :
 def Disjoint (L : Layout) (prog : Tid → List Sec) : Prop :=
   ∀ t u f, t ≠ u → Writes L prog u f → ¬ Mentions L prog t f
 
+/-! ## builder-level programs (what the generator emits) -/
+
+/-- builder API operations: `mock` = `Func(f).Return/Apply/Origin().Apply` (mocker.go:88-97 applyByFunc → proxy.Func →
+    replaceFunc, then Guard.Apply); `chk` = the builder calls each of its own targets; `reset` = `Builder.Reset`
+    (builder.go:200-208: every mocker's Cancel → UnpatchWithLock, also for mockers that were cancelled before) -/
+inductive BOp
+  | mock (f : Loc) (r : Repl) (wo : Bool)
+  | chk
+  | reset
+  deriving DecidableEq, Repr, Inhabited
+
+def insertSorted (x : Nat) : List Nat → List Nat
+  | [] => [x]
+  | y :: ys => if x < y then x :: y :: ys else if x = y then y :: ys else y :: insertSorted x ys
+
+/-- sections of a builder program; `m` = targets in the builder's mocker map so far -/
+def compileOps (tg : List Loc) : List BOp → List Loc → List Sec
+  | [], _ => []
+  | .mock f r wo :: rest, m => [.replace f r wo, .apply f] ++ compileOps tg rest (insertSorted f m)
+  | .chk :: rest, m => tg.map (fun f => Sec.call f 3) ++ compileOps tg rest m
+  | .reset :: rest, m => m.map Sec.unpatch ++ compileOps tg rest m
+
+def mockedAfter : List BOp → List Loc → List Loc
+  | [], m => m
+  | .mock f _ _ :: rest, m => mockedAfter rest (insertSorted f m)
+  | _ :: rest, m => mockedAfter rest m
+
+/-- the program class of the generator: any operation sequence, then `reset` and a final check of all own targets -/
+def builderProg (tg : List Loc) (ops : List BOp) : List Sec :=
+  compileOps tg ops [] ++ ((mockedAfter ops []).map Sec.unpatch ++ tg.map (fun f => Sec.call f 3))
+
 end Conc
